@@ -9,13 +9,15 @@ REPO = os.environ.get("PYVC_REPO", "/repo")
 
 
 class Loop:
-    def __init__(self, header, invariant=None, decreases=None, kinds=None, havoc=None, note=""):
+    def __init__(self, header, invariant=None, decreases=None, kinds=None, havoc=None, note="", lemmas=None):
         self.header = header  # unparsed loop header text (anchor)
         self.invariant = dict(invariant or {})  # name -> spec string
         self.decreases = decreases  # spec string (Int) or None
         self.kinds = dict(kinds or {})  # var -> Kind for havoc of untyped vars
         self.havoc = list(havoc or [])  # extra lvalues ("self._pos") modified through callees
         self.note = note
+        # proved-then-assumed stepping stones at the start of the loop body (after the loop variable is bound)
+        self.lemmas = dict(lemmas or {})
 
 
 class Contract:
